@@ -418,10 +418,36 @@ def parse_dispatch():
     m = re.search(r"loop \{ (.*?)let instr = unsafe \{ \*bytecode_ptr\.add\(ip\) \}; ip \+= 1;", run)
     if not m:
         raise ExtractError("run.rs: `loop { ... let instr = unsafe { *bytecode_ptr.add(ip) }; ip += 1;` not found")
-    # the guard is the FIRST statement of the loop body, pops the frame (other bookkeeping, e.g. closing the
-    # frame's upvalues, may precede the pop) and never falls through to the fetch
+    # Structural: between the loop top and the fetch there is, at the top level of the loop body, a block
+    # `if ip >= bytecode_len { ... }` (spelled either way round) whose last statement is `continue;` or a `return`, so it never
+    # falls through to the fetch; after it and before the fetch neither `ip` nor `bytecode_len` is assigned.  Bookkeeping
+    # statements before the guard, inside it, or between it and the fetch (budget tick, site hooks) are free.
     g = m.group(1)
-    fetch_guarded = g.startswith("if ip >= bytecode_len {") and "self.frames.pop();" in g.split("continue; }")[0] and "continue; }" in g
+    fetch_guarded = False
+    depth, i = 0, 0
+    while i < len(g):
+        if depth == 0:
+            mg = re.match(r"if (?:ip >= bytecode_len|bytecode_len <= ip|!\(ip < bytecode_len\)) \{", g[i:])
+            if mg:
+                dd, e = 0, i + mg.end() - 1
+                while e < len(g):
+                    if g[e] == "{":
+                        dd += 1
+                    elif g[e] == "}":
+                        dd -= 1
+                        if dd == 0:
+                            break
+                    e += 1
+                block, after = g[i + mg.end():e].rstrip(), g[e + 1:]
+                diverges = re.search(r"(?:\bcontinue;|\breturn\b[^;{}]*;)$", block) is not None
+                reassigned = re.search(r"(?<![.\w])(?:ip|bytecode_len) (?:[-+*]?=)(?!=)", after) is not None
+                fetch_guarded = diverges and not reassigned
+                break
+        if g[i] == "{":
+            depth += 1
+        elif g[i] == "}":
+            depth -= 1
+        i += 1
     # 2. register macros: every raw register access of run.rs sits in a reg_* macro right behind check_reg!(idx)
     macro_bodies = re.findall(r"macro_rules! (reg_\w+) \{ \(\$idx:expr(?:, \$val:expr)?\) => \{\{ let idx = \$idx; check_reg!\(idx\); (.*?)\}\}; \}", run)
     in_macros = sum(b.count("regs_ptr.add(") for _, b in macro_bodies)
